@@ -176,6 +176,13 @@ impl Monitor for C08 {
                     let mut fp = hdr.hash().0.to_vec();
                     fp.extend_from_slice(class.as_bytes());
                     self.rep.nontrivial(fnv(&fp));
+                    {
+                        let orig_tx: std::collections::BTreeSet<[u8; 32]> = tip.transactions().map(|t| tmelcrypt::hash_single(&stdcode::serialize(t).unwrap()).0).collect();
+                        let rest_tx: std::collections::BTreeSet<[u8; 32]> = restored.transactions().map(|t| tmelcrypt::hash_single(&stdcode::serialize(t).unwrap()).0).collect();
+                        if restored.proposer_action() != tip.proposer_action() || orig_tx != rest_tx {
+                            self.rep.violate(&format!("C08|restored-state-differs|from_block|{}", if orig_tx != rest_tx { "transactions" } else { "proposer-action" }), "the state rebuilt from its own block reports other transactions or another proposer action than the original".into(), json!({"case_seed": self.case_seed, "origin": w.origin, "height": ev.height, "original_transactions": orig_tx.len(), "restored_transactions": rest_tx.len()}));
+                        }
+                    }
                     if restored.header() != hdr {
                         self.rep.violate(&format!("C08|restored-header-differs|from_block|{}", class), "the state rebuilt from its own block does not have the block's header".into(), json!({"case_seed": self.case_seed, "origin": w.origin, "height": ev.height, "original": header_json(&hdr), "restored": header_json(&restored.header())}));
                     } else {
